@@ -38,6 +38,15 @@ def gen_case(seed, i, tier, with_faults):
                 op = r.weighted(STEP_W)
                 o = hot if r.chance(0.75) else r.below(3)
                 steps.append([op, o, r.below(10)])
+            if r.chance(0.15):
+                # read without lock, let something else open the transaction (a lock on another row, a flush of
+                # another change), then lock the row that was read and change it
+                k = r.below(10)
+                other = (hot + 1 + r.below(2)) % 3
+                steps = [['read', hot, k], [r.choice(['lock', 'lock', 'incr']), other, 2], ['flush', 0, 0],
+                         ['lock', hot, 0], [r.choice(['rmw', 'incr', 'write']), hot, k]]
+                if r.chance(0.5):
+                    steps.insert(1, [r.choice(['read', 'read_dict', 'load']), other, r.below(10)])
             prog.append({'kind': 'opt', 'steps': steps})
         threads['T%d' % t] = prog
     faults = []
